@@ -27,4 +27,102 @@ PROPS = {
             "the op set fed to the Lean spec is what Change::decode() of the real change returns (expanded ops), not an independent decoder (M2 change-column decoding is checked separately)"],
         assumptions=["op ids of applied changes are pairwise distinct (DistinctIds) — follows from (actor, seq) uniqueness and startOp discipline, proved in C38/C04"],
     ),
+    "C01": dict(
+        modules=["AmVerif.Props.C01Spec", "AmVerif.Props.C01Deliver", "AmVerif.Props.C01DeliverState"],
+        engines=[dict(engine="crdt", quick=250, thorough=8000), dict(engine="storage", quick=25, thorough=400)],
+        level="proof",
+        trusted_base=TB_COMMON + ["acyclicity of the dependency relation is a hypothesis of C01_deliver_* (model hashes are opaque; in the code it follows from SHA-256 preimage resistance)",
+                                  "the op store of the Rust (op_set2) is not modelled: 'applied set ↦ visible state' is Spec.interp, tied to the code by the differential run"],
+        assumptions=["WF universe of changes: distinct hashes, distinct (actor, seq), deps closed and acyclic, seq n>1 depends on seq n-1 (what transaction_args produces)"],
+    ),
+    "C04": dict(
+        modules=["AmVerif.Props.C04Heads"],
+        engines=[dict(engine="crdt", quick=250, thorough=8000)],
+        level="proof",
+        trusted_base=TB_COMMON + ["seq / startOp / deps of a local change are computed by Model/Local.lean (Doc.beginTx, Doc.localDeps) and compared with every real change; isolated transactions are not modelled yet"],
+    ),
+    "C05": dict(
+        modules=["AmVerif.Props.C05"],
+        engines=[dict(engine="crdt", quick=250, thorough=8000)],
+        level="proof",
+        trusted_base=TB_COMMON + ["errors inside BatchApply::apply (op import) are not modelled"],
+    ),
+    "C06": dict(
+        modules=["AmVerif.Props.C06Apply"],
+        engines=[dict(engine="crdt", quick=250, thorough=8000), dict(engine="storage", quick=25, thorough=400)],
+        level="proof",
+        trusted_base=TB_COMMON + ["load_incremental of bad bytes and rejected transaction operations are decided by the direct oracles of the crdt/storage engines (state and pending ops compared before/after every failing call), not by a theorem"],
+    ),
+    "C12": dict(
+        modules=["AmVerif.Props.C12Chunks"],
+        engines=[dict(engine="storage", quick=60, thorough=1500)],
+        level="proof",
+        trusted_base=TB_COMMON + ["chunk bodies (change / document columns) are opaque to the model: `bodyOk` parameter; SHA-256 and inflate are executable model functions used as opaque functions in the theorems"],
+    ),
+    "C13": dict(
+        modules=["AmVerif.Props.C13"],
+        engines=[dict(engine="storage", quick=60, thorough=600, opts_thorough={"allcuts": 1})],
+        level="proof",
+        trusted_base=TB_COMMON + ["chunk bodies are opaque to the model (`bodyOk`); 'never panics' for the body decoders is covered by the run only"],
+    ),
+    "C14": dict(
+        modules=["AmVerif.Props.C14"],
+        engines=[dict(engine="storage", quick=60, thorough=400, opts={"flips": 120}, opts_thorough={"flips": 100000})],
+        level="proof",
+        trusted_base=TB_COMMON + ["no cryptographic assumption: acceptance of a flipped uncompressed chunk is proved to exhibit an explicit 32-bit SHA-256 prefix collision; compressed change chunks (DEFLATE padding bits) are outside the theorem"],
+    ),
+    "C20": dict(
+        modules=["AmVerif.Props.C20"],
+        engines=[dict(engine="sync", quick=200, thorough=6000)],
+        level="proof",
+        trusted_base=TB_COMMON + ["hook: forced Bloom false positives (sync::verif_hooks::FORCE_FP, --cfg automerge_verif)",
+                                  "a document is abstracted to its change graph + orphan queue; get_hashes(have) modelled as non-ancestors (equal to the seq-clock computation under the per-actor chain invariant)"],
+    ),
+    "C21": dict(
+        modules=["AmVerif.Props.C21"],
+        engines=[dict(engine="sync", quick=200, thorough=6000)],
+        level="proof",
+        trusted_base=TB_COMMON + ["hook: forced Bloom false positives", "pairwise invariants are proved for two peers across reconnects; the lift to ≥ 3 peers is by the run only"],
+    ),
+    "C22": dict(
+        modules=["AmVerif.Props.C22"],
+        engines=[dict(engine="sync", quick=200, thorough=6000)],
+        level="proof",
+        trusted_base=TB_COMMON + ["hook: forced Bloom false positives"],
+    ),
+    "C32": dict(
+        modules=["AmVerif.Props.C32"],
+        engines=[dict(engine="serde", quick=40, thorough=1500)],
+        prebuild=[["cargo", "build", "--offline", "-p", "automerge-cli"]],
+        level="proof",
+        trusted_base=TB_COMMON + ["serde_json and the length-enforcing serializer in the harness", "how conflicts arise is C01–C03's job; the serde model takes winner/loser registers as given"],
+    ),
+    "C33": dict(
+        modules=["AmVerif.Props.C33"],
+        engines=[dict(engine="serde", quick=40, thorough=1500)],
+        prebuild=[["cargo", "build", "--offline", "-p", "automerge-cli"]],
+        level="proof",
+        trusted_base=TB_COMMON + ["the CLI binary is built from /repo and driven through stdin/stdout; save/load between import and export is C11's subject",
+                                  "JSON text → value parsing (serde_json) is outside the theorem; the model's own parser is used by the driver only"],
+    ),
+    "C34": dict(
+        modules=["AmVerif.Props.C34"],
+        engines=[dict(engine="hexane", quick=150, thorough=5000)],
+        level="proof",
+        panic_is_failure=False,
+        trusted_base=TB_COMMON + ["the model is at value-list level: slab byte surgery, B-tree shape, iterator suspend/resume are not modelled — save() bytes and every query result are compared instead"],
+    ),
+    "C35": dict(
+        modules=["AmVerif.Props.C35"],
+        engines=[dict(engine="hexane", quick=150, thorough=5000)],
+        level="proof",
+        panic_is_failure=False,
+        trusted_base=TB_COMMON + ["boolean columns and the delta loader's domain checks are covered by the differential run only (no round-trip theorem)"],
+    ),
+    "C38": dict(
+        modules=["AmVerif.Props.C38"],
+        engines=[dict(engine="crdt", quick=250, thorough=8000), dict(engine="storage", quick=25, thorough=400)],
+        level="proof",
+        trusted_base=TB_COMMON + ["seq contiguity per actor (the assert in change_graph.rs add_changes) is an invariant of well-formed histories, not modelled as a panic branch"],
+    ),
 }
